@@ -4597,3 +4597,121 @@ func checkWorkListExhausted(p *Program, r *Report, rule string, core *ssa.Functi
 	}
 	r.Floor(rule, "exits of the core's work loop that reach the success return", n, 1)
 }
+
+// ---------------------------------------------------------------------------
+// R14j JOINT-PROOF-POSITIONS. The proof of several targets is not the union of
+// the proofs of each: a sibling that is a target itself, or that can be
+// computed from other targets, is not part of it. The package has a
+// single-target helper (positions on the path of one position) next to the
+// joint function. The rule: the single-target helper is never called in a loop
+// whose results are accumulated into one list.
+
+// singleTargetProofFns: package functions that take scalar positions only (no
+// slice parameter), return a []uint64 and climb with the package's Parent in a loop.
+func singleTargetProofFns(p *Program) map[*ssa.Function]bool {
+	out := map[*ssa.Function]bool{}
+	parent := p.Func("Parent")
+	if parent == nil {
+		return out
+	}
+	for _, fn := range p.Funcs {
+		if fn.Parent() != nil || fn.Signature.Recv() != nil || fn.Blocks == nil {
+			continue
+		}
+		res := fn.Signature.Results()
+		if res.Len() != 1 {
+			continue
+		}
+		sl, ok := res.At(0).Type().Underlying().(*types.Slice)
+		if !ok || !isUint64(sl.Elem()) {
+			continue
+		}
+		scalarOnly := len(fn.Params) > 0 && isUint64(fn.Params[0].Type())
+		for _, par := range fn.Params {
+			if _, isBasic := par.Type().Underlying().(*types.Basic); !isBasic {
+				scalarOnly = false
+			}
+		}
+		if !scalarOnly {
+			continue
+		}
+		climbs := false
+		for _, b := range fn.Blocks {
+			if innermostLoopHeader(b) == nil {
+				continue
+			}
+			for _, in := range b.Instrs {
+				if c, ok := in.(*ssa.Call); ok && c.Common().StaticCallee() == parent {
+					climbs = true
+				}
+			}
+		}
+		if climbs {
+			out[fn] = true
+		}
+	}
+	return out
+}
+
+func checkJointProofPositions(p *Program, r *Report, rule string) {
+	single := singleTargetProofFns(p)
+	var names []string
+	for f := range single {
+		names = append(names, p.FuncName(f))
+	}
+	sort.Strings(names)
+	n := 0
+	for _, fn := range p.Funcs {
+		if single[fn] || fn.Blocks == nil {
+			continue
+		}
+		idx := 0
+		for _, sc := range callsIn(p, fn) {
+			callee := sc.call.Common().StaticCallee()
+			if callee == nil || !single[callee] {
+				continue
+			}
+			idx++
+			n++
+			key := fmt.Sprintf("%s->%s#%d/joint", p.FuncName(fn), p.FuncName(callee), idx)
+			h := innermostLoopHeader(sc.call.Block())
+			accumulated := false
+			if h != nil {
+				// the result is appended to a list carried around the loop
+				for _, ref := range *sc.call.Referrers() {
+					c, ok := ref.(*ssa.Call)
+					if !ok {
+						continue
+					}
+					if b, isB := c.Common().Value.(*ssa.Builtin); isB && b.Name() == "append" && len(c.Common().Args) == 2 && c.Common().Args[1] == ssa.Value(sc.call) {
+						if flowsFrom(c.Common().Args[0], func(v ssa.Value) bool {
+							ph, ok := v.(*ssa.Phi)
+							return ok && loopContains(h, ph.Block())
+						}, 0, map[ssa.Value]bool{}) {
+							accumulated = true
+						}
+						// the list lives in a variable (captured by a closure): appended to and stored back
+						if ld, ok := c.Common().Args[0].(*ssa.UnOp); ok && ld.Op == token.MUL {
+							for _, ref2 := range *c.Referrers() {
+								if st, ok := ref2.(*ssa.Store); ok && st.Addr == ld.X {
+									accumulated = true
+								}
+							}
+						}
+					}
+				}
+			}
+			if accumulated {
+				r.Violate(rule, key, posOf(p, sc.call), fmt.Sprintf("the positions on the path of one target (%s) are collected in a loop over several targets: the proof of several targets is not the union of their single proofs - siblings that are targets themselves or that can be computed from other targets are reported as needed, and the consumer of the list walks the joint order", p.FuncName(callee)), "in "+p.FuncName(fn))
+			} else {
+				r.Discharge(rule, key, posOf(p, sc.call), "the single-target helper is used for one target", true)
+			}
+		}
+	}
+	r.Notes = append(r.Notes, fmt.Sprintf("%s: single-target proof helpers found by role: %s; %d call site(s) in the package", rule, strings.Join(names, ", "), n))
+	if len(single) == 0 {
+		r.Discharge(rule, "package/no-single-target-helper", "-", "the package has no single-target proof-position helper", false)
+	} else {
+		r.Discharge(rule, "package/single-target-helper-never-accumulated", "-", fmt.Sprintf("%d single-target helper(s) (%s), %d call site(s), none accumulated over a loop", len(single), strings.Join(names, ", "), n), true)
+	}
+}
